@@ -4,6 +4,7 @@ Line-protocol driver for the token model and the C09 / C10 monitors.
   monitor C09|C10 <ops> <obs>: evaluates the property on the implementation's observation stream
 -/
 import Irismod.Spec.C10
+import Irismod.Spec.C12_Token
 
 namespace Driver.Token
 open Irismod Irismod.Sdk Irismod.Token Irismod.Line
@@ -100,10 +101,20 @@ def accounts : List String := ["A0", "A1", "A2", "A3", "FC", "TM"]
 
 def dedup (xs : List String) : List String := xs.eraseDups
 
+def showToken (t : Token) : String :=
+  s!"{t.symbol}:{undash t.name}:{t.scale}:{t.minUnit}:{t.initialSupply}:{t.maxSupply}:{if t.mintable then 1 else 0}:{t.owner}:{kName t.contract}"
+
+def showParams (p : Params) : String :=
+  s!"{p.taxRate.raw}:{undash p.feeDenom}:{p.feeAmt}:{p.mintRatio.raw}:{if p.erc20 then 1 else 0}:{if p.beacon then 1 else 0}"
+
+/-- the exported genesis document in ITS OWN order (no sorting: the order is part of what is compared) -/
+def showGenesis (g : TokenGenesis.Genesis) : String :=
+  s!"params={showParams g.params} toks={joinWith "," (g.tokens.map showToken)} " ++
+  s!"burned={joinWith "," (g.burned.map fun (d, n) => s!"{d}:{n}")}"
+
 /-- canonical state line (sorted entries), the same projection the harness prints -/
 def showState (s : State) : String :=
-  let toks := sortStrings (s.tokens.map fun (_, t) =>
-    s!"{t.symbol}:{undash t.name}:{t.scale}:{t.minUnit}:{t.initialSupply}:{t.maxSupply}:{if t.mintable then 1 else 0}:{t.owner}:{kName t.contract}")
+  let toks := sortStrings (s.tokens.map fun (_, t) => showToken t)
   let mu := sortStrings (s.minUnits.map fun (m, sym) => s!"{m}:{sym}")
   let own := sortStrings (s.owners.map fun ((o, sym), v) => if v = sym then s!"{o}/{sym}" else s!"{o}/{sym}!{v}")
   let ctr := sortStrings (s.contracts.map fun (c, sym) => s!"{kName c}:{sym}")
@@ -251,6 +262,16 @@ def modelLine (s : State) (line : String) : State × String :=
     match pureLine t with
     | some o => (s, o)
     | none =>
+      match t with
+      | ["token", "export"] =>
+        let g := TokenGenesis.exportGenesis s
+        (s, s!"ok validate={if TokenGenesis.validateGenesis g then "ok" else "err"} " ++ showGenesis g)
+      | ["token", "reimport"] =>
+        match TokenGenesis.reimport s with
+        | .ok s' => (s', "ok " ++ showState s')
+        | .error (.panic _) => (s, "panic " ++ showState s)
+        | .error (.reject _) => (s, "rej " ++ showState s)
+      | _ =>
       match parseOp t with
       | none => (s, "bad-op")
       | some op =>
@@ -304,6 +325,21 @@ def runMonitor (prop : String) (ops obs : Array String) : IO Unit := do
         | none => out.putStrLn s!"mon {prop} FAIL clause=obs-parse line={i+1}"; fails := fails + 1
       | none => out.putStrLn s!"mon {prop} FAIL clause=parse line={i+1}"; fails := fails + 1
     | _ =>
+      if t == ["token", "export"] then
+        steps := steps + 1
+        if prop = "C12" then
+          for f in Spec.C12.Token.exportFails pre (arg o "validate" == "ok") do
+            out.putStrLn (failLine prop i f); fails := fails + 1
+      else if t == ["token", "reimport"] then
+        match parseState pre.env o with
+        | some post =>
+          steps := steps + 1
+          let fs := if prop = "C12" then Spec.C12.Token.reimportFails pre (o.head? == some "ok") post else []
+          for f in fs do
+            out.putStrLn (failLine prop i f); fails := fails + 1
+          pre := post
+        | none => out.putStrLn s!"mon {prop} FAIL clause=parse line={i+1}"; fails := fails + 1
+      else
       match pureFails t o with
       | some fs =>
         steps := steps + 1
@@ -316,7 +352,8 @@ def runMonitor (prop : String) (ops obs : Array String) : IO Unit := do
           steps := steps + 1
           let accepted := o.head? == some "ok"
           let fs := if prop = "C09" then Spec.C09.stepFails pre op accepted post
-                    else Spec.C10.stepFails pre op accepted post
+                    else if prop = "C10" then Spec.C10.stepFails pre op accepted post
+                    else []
           for f in fs do
             out.putStrLn (failLine prop i f); fails := fails + 1
           pre := post
@@ -348,7 +385,8 @@ def main (args : List String) : IO UInt32 := do
   | ["explain", ops] => runExplain (← readLines ops); return 0
   | ["monitor", "C09", ops, obs] => runMonitor "C09" (← readLines ops) (← readLines obs); return 0
   | ["monitor", "C10", ops, obs] => runMonitor "C10" (← readLines ops) (← readLines obs); return 0
-  | _ => IO.eprintln "usage: model <ops> | monitor C09|C10 <ops> <obs>"; return 2
+  | ["monitor", "C12", ops, obs] => runMonitor "C12" (← readLines ops) (← readLines obs); return 0
+  | _ => IO.eprintln "usage: model <ops> | monitor C09|C10|C12 <ops> <obs>"; return 2
 
 end Driver.Token
 
